@@ -314,6 +314,7 @@ def standin_predicates(tier, seed):
     lib = [g for g in gate_library() if cirq.has_unitary(g)]
     lib += [cirq.ZPowGate(dimension=3) ** 0.25, cirq.XPowGate(dimension=3) ** 0.5, cirq.ZPowGate(dimension=4) ** 0.3, cirq.XPowGate(dimension=3) ** 1.5]
     lib += list(cirq.SingleQubitCliffordGate.all_single_qubit_cliffords[:8])
+    lib += [cirq.X**1, cirq.Y**1, cirq.Z**1, cirq.X**1.0, cirq.X**3, cirq.Z**-1]  # equal to the named Paulis but not the same objects
 
     def bad(what, **kw):
         if not any(f["failed"] == what for f in fails):
@@ -362,6 +363,10 @@ def standin_predicates(tier, seed):
                 u1, u2 = cirq.unitary(g1), cirq.unitary(g2)
                 if not np.allclose(u1 @ u2, u2 @ u1, atol=1e-7):
                     bad(f"commutes() is True for {lab}s whose matrices do not commute", a=a, b=b)
+            if r is False:  # "no" is a definite answer too (None / the default stands for "cannot tell")
+                u1, u2 = cirq.unitary(g1), cirq.unitary(g2)
+                if np.allclose(u1 @ u2, u2 @ u1, atol=1e-9):
+                    bad(f"commutes() is False for {lab}s whose matrices commute", a=a, b=b)
         # equality predicates
         u1, u2 = cirq.unitary(g1), cirq.unitary(g2)
         if cirq.approx_eq(g1, g2, atol=1e-9) and not np.allclose(u1, u2, atol=1e-6):
